@@ -5,6 +5,7 @@ import StorageModel.C15.Paging
 import StorageModel.C15.Order
 import StorageModel.C15.Extended
 import StorageModel.C15.Layout
+import StorageModel.C15.DepthProofs
 /-
   C15 — Parent and child (extension) stores stay consistent.
 
@@ -854,3 +855,205 @@ end StorageModel.Properties.C15
 #print axioms StorageModel.Properties.C15.parent_and_child_parts_disjoint
 #print axioms StorageModel.Properties.C15.lookup_apis_agree
 #print axioms StorageModel.Properties.C15.pinned_create_violates
+
+
+/-! ## Layering depth (round 14): chains of stores root → child → grandchild → … (C15/Depth.lean)
+
+  `lv : Chain` describes the stores below the root (plain / extended, own index or not), store `k+1`
+  is a child store of store `k` and registered with it.  All statements are for every chain, every
+  state, every store of the chain. -/
+namespace StorageModel.Properties.C15
+open StorageModel.C15
+section depth
+open StorageModel.C15.Depth
+
+/-- an entity created through store k exists in store k and in every store above it: `IsEntityPresent`
+    and `FindById` through every level j ≤ k (any depth) -/
+theorem create_through_child_exists_in_all_ancestors (lv : Chain) (st st' : DSt) (k : Nat) (id : Id)
+    (p : DPayload) (h : createD lv st k id p = .ok st') :
+    ∀ j, j ≤ k → isPresent st' j id = true ∧ (Depth.findById lv st' j id).isSome = true := by
+  intro j hj
+  have he := createD_entity lv st st' k id p h
+  have hp := persistD_present ((mget st.ents id).getD DEnt.empty) k p none k j hj
+  constructor
+  · simp [isPresent, he, hp]
+  · simp [Depth.findById, Depth.bucketForLoad, he, hp]
+
+/-- queries of store k (QueryIds / IterateIds, any filter) return exactly the entities with data of
+    store k — every entity for the root, every row for a store declared extended — that satisfy the filter -/
+theorem level_query_returns_exactly_kept_rows (lv : Chain) (st : DSt) (k : Nat) (f : Filter) (x : Id) :
+    x ∈ queryIdsD lv st k f ↔
+      ∃ e, mget st.ents x = some e ∧ (k = 0 ∨ e.present k = true ∨ isExt lv k = true) ∧ fevalD f e = true :=
+  mem_queryIdsD lv st k f x
+
+/-- DeleteById through any store of the chain is the same operation, and afterwards no store of the chain
+    finds the entity, reports it present or returns it from a query -/
+theorem chain_delete_removes_entity_at_every_level (lv : Chain) (st st' : DSt) (k : Nat) (id : Id)
+    (h : deleteD lv st k id = .ok st') :
+    (∀ k', deleteD lv st k' id = deleteD lv st k id) ∧
+    ∀ j, Depth.findById lv st' j id = none ∧ isPresent st' j id = false ∧ ∀ f, id ∉ queryIdsD lv st' j f := by
+  have he := deleteD_ents lv st st' k id h
+  refine ⟨fun _ => rfl, fun j => ⟨?_, ?_, ?_⟩⟩
+  · simp [Depth.findById, Depth.bucketForLoad, he]
+  · simp [isPresent, he]
+  · intro f hm
+    obtain ⟨e, hget, _⟩ := (mem_queryIdsD lv st' j f id).1 hm
+    simp [he] at hget
+
+/-- the EXACT effect of DeleteById on the own indexes of the stores at depth ≥ 2 (grandchild and below):
+    none — the root only walks the stores registered with it -/
+theorem chain_delete_leaves_deep_indexes_untouched (lv : Chain) (st st' : DSt) (k : Nat) (id : Id)
+    (h : deleteD lv st k id = .ok st') (j : Nat) (hj : 1 ≤ j) :
+    st'.lidx.getD j [] = st.lidx.getD j [] :=
+  deleteD_deep_indexes_untouched lv st st' k id h j hj
+
+/-- the delete clause for the deep indexes as the property demands it: no entry of any own index of a
+    store at depth ≥ 2 refers to the deleted id.  FALSE for the code on chains whose grandchild store
+    declares an index (`grandchild_delete_leaves_index_entry`). -/
+def chain_delete_leaves_no_trace_fullStatement : Prop :=
+  ∀ (lv : Chain) (st st' : DSt) (k : Nat) (id : Id), deleteD lv st k id = .ok st' →
+    ∀ j v, 1 ≤ j → mget (st'.lidx.getD j []) v ≠ some id
+
+/-- … proved under the hypothesis that names the gap: no store below the first child level holds index
+    entries (it declares no index: its bucket is never written) -/
+theorem chain_delete_leaves_no_trace_partial (lv : Chain) (st st' : DSt) (k : Nat) (id : Id)
+    (hNoDeep : ∀ j, 1 ≤ j → st.lidx.getD j [] = [])
+    (h : deleteD lv st k id = .ok st') :
+    ∀ j v, 1 ≤ j → mget (st'.lidx.getD j []) v ≠ some id := by
+  intro j v hj
+  rw [deleteD_deep_indexes_untouched lv st st' k id h j hj, hNoDeep j hj]
+  simp
+
+def plain3 : Chain := [⟨false, true⟩, ⟨false, true⟩]
+
+/-- the witness: A → C → G, all plain, G with an own index.  `G.Create(e1, name v1, roles r1 r2, code v3,
+    tag v2)` then `DeleteById(e1)` through any of the three stores: the entity is gone, G's index still maps
+    v2 to e1 — "deleting through either store removes both parts" fails at depth 3 -/
+theorem grandchild_delete_leaves_index_entry :
+    ∀ k ∈ [0, 1, 2],
+      let st := runD plain3 (DSt.init plain3) [[.create 2 1 ⟨1, [1, 2], [some 3, some 2]⟩], [.delete k 1]]
+      st.ents = [] ∧ mget (st.lidx.getD 1 []) 2 = some 1 ∧ st.nameIdx = [] ∧ st.lidx.getD 0 [] = [] := by
+  decide
+
+theorem chain_delete_fullStatement_fails : ¬ chain_delete_leaves_no_trace_fullStatement := by
+  intro hfull
+  have := hfull plain3 (runD plain3 (DSt.init plain3) [[.create 2 1 ⟨1, [1, 2], [some 3, some 2]⟩]])
+    (runD plain3 (DSt.init plain3) [[.create 2 1 ⟨1, [1, 2], [some 3, some 2]⟩], [.delete 0 1]]) 0 1 (by decide) 1 2 (by decide)
+  exact this (by decide)
+
+/-! ### Create through a store at depth ≥ 2 over an entity without data of the store above it -/
+
+/-- the create clause as the property demands it ("parent-store indexes … apply identically"): whatever the
+    entity already has, its old indexed values are captured before the create persists (so the root's old
+    entries are replaced).  FALSE for the code at depth ≥ 2 (`grandchild_create_over_root_only_leaves_stale_entries`). -/
+def chain_create_captures_old_fullStatement : Prop :=
+  ∀ (lv : Chain) (st : DSt) (k : Nat) (id : Id) (p : DPayload), id ≠ 0 → isPresent st k id = false →
+    createD lv st k id p =
+      indexAfterD lv k true st id ((mget st.ents id).getD DEnt.empty)
+        (persistD ((mget st.ents id).getD DEnt.empty) k p none k)
+
+/-- … proved under the hypothesis that names the gap: the store ONE level up has its data bucket for the id
+    (what `parentExists` tests), or the entity does not exist at all -/
+theorem chain_create_captures_old_partial (lv : Chain) (st : DSt) (k : Nat) (id : Id) (p : DPayload)
+    (hid : id ≠ 0) (hnew : isPresent st k id = false)
+    (hgap : (k ≠ 0 ∧ isPresent st (k - 1) id = true) ∨ mget st.ents id = none) :
+    createD lv st k id p =
+      indexAfterD lv k true st id ((mget st.ents id).getD DEnt.empty)
+        (persistD ((mget st.ents id).getD DEnt.empty) k p none k) := by
+  unfold createD
+  simp only [hid, if_false, hnew, Bool.false_eq_true]
+  rcases hgap with ⟨hk, hp⟩ | hnone
+  · simp [hk, hp]
+  · have : isPresent st (k - 1) id = false := by simp [isPresent, hnone]
+    simp [this, hnone]
+
+/-- witness: `A.Create(e1, v1, [r1])`, then `G.Create(e1, v2, [r3], code v3, tag v2)`: C has no data for e1, so
+    nothing is captured — the name index maps v1 AND v2 to e1, role r1 still lists e1 -/
+theorem grandchild_create_over_root_only_leaves_stale_entries :
+    let st := runD plain3 (DSt.init plain3)
+      [[.create 0 1 ⟨1, [1], []⟩], [.create 2 1 ⟨2, [3], [some 3, some 2]⟩]]
+    mget st.nameIdx 1 = some 1 ∧ mget st.nameIdx 2 = some 1 ∧ (1, 1) ∈ st.rolesIdx ∧
+      (mget st.ents 1).map (·.name) = some 2 := by decide
+
+/-- … and with an unchanged name the create is refused as a duplicate of the entity's own entry -/
+theorem grandchild_create_over_root_only_refused_as_own_duplicate :
+    createD plain3 (runD plain3 (DSt.init plain3) [[.create 0 1 ⟨1, [1], []⟩]]) 2 1 ⟨1, [1], [some 3, some 2]⟩
+      = .error .dupName := by decide
+
+theorem chain_create_fullStatement_fails : ¬ chain_create_captures_old_fullStatement := by
+  intro hfull
+  have h := hfull plain3 (runD plain3 (DSt.init plain3) [[.create 0 1 ⟨1, [1], []⟩]]) 2 1
+    ⟨1, [1], [some 3, some 2]⟩ (by decide) (by decide)
+  revert h
+  decide
+
+/-! ### queries vs. lookups of an extended store at depth ≥ 2 -/
+
+/-- the query / lookup clause: a store's queries (filter `true`) return exactly the ids its FindById finds.
+    FALSE for the code for an extended store at depth ≥ 2 (`extended_grandchild_query_lookup_mismatch`). -/
+def level_query_agrees_with_lookup_fullStatement : Prop :=
+  ∀ (lv : Chain) (st : DSt) (k : Nat) (x : Id),
+    x ∈ queryIdsD lv st k .tt ↔ (Depth.findById lv st k x).isSome = true
+
+/-- … proved under the hypothesis that names the gap: the store is not extended, or it sits at depth ≤ 1 -/
+theorem level_query_agrees_with_lookup_partial (lv : Chain) (st : DSt) (k : Nat) (x : Id)
+    (hgap : isExt lv k = false ∨ k ≤ 1) :
+    x ∈ queryIdsD lv st k .tt ↔ (Depth.findById lv st k x).isSome = true := by
+  rw [mem_queryIdsD]
+  unfold scanKeeps Depth.findById Depth.bucketForLoad
+  cases hm : mget st.ents x with
+  | none => simp
+  | some e =>
+    by_cases hp : e.present k = true
+    · simp [hp, fevalD]
+    · have hp' : e.present k = false := by simpa using hp
+      have hk : k ≠ 0 := by
+        intro h0; subst h0; simp [DEnt.present] at hp
+      rcases hgap with hx | hle
+      · simp [hp', hx, hk, fevalD]
+      · have h1 : k = 1 := by omega
+        subst h1
+        by_cases hx : isExt lv 1 = true
+        · simp [hx, fevalD, DEnt.present]
+        · have hx' : isExt lv 1 = false := by simpa using hx
+          simp [hp', hx', fevalD]
+
+/-- witness: plain C, extended G, one root-only entity e1: `G.QueryIds(true)` = [e1], `G.FindById(e1)` finds
+    nothing, `C.QueryIds(true)` = [] -/
+theorem extended_grandchild_query_lookup_mismatch :
+    let lv : Chain := [⟨false, true⟩, ⟨true, true⟩]
+    let st := runD lv (DSt.init lv) [[.create 0 1 ⟨1, [1], []⟩]]
+    queryIdsD lv st 2 .tt = [1] ∧ Depth.findById lv st 2 1 = none ∧ queryIdsD lv st 1 .tt = [] := by decide
+
+theorem level_query_lookup_fullStatement_fails : ¬ level_query_agrees_with_lookup_fullStatement := by
+  intro hfull
+  have h := (hfull [⟨false, true⟩, ⟨true, true⟩]
+    (runD [⟨false, true⟩, ⟨true, true⟩] (DSt.init [⟨false, true⟩, ⟨true, true⟩]) [[.create 0 1 ⟨1, [1], []⟩]]) 2 1).1 (by decide)
+  revert h
+  decide
+
+/-- non-vacuity: update through the root of an entity with grandchild data is routed down two levels and
+    replaces the root's index entries -/
+example :
+    let st := runD plain3 (DSt.init plain3)
+      [[.create 2 1 ⟨1, [1], [some 3, some 2]⟩], [.update 0 1 ⟨2, [3], []⟩ none]]
+    mget st.nameIdx 2 = some 1 ∧ mget st.nameIdx 1 = none ∧ st.rolesIdx = [(3, 1)] ∧
+      Depth.findById plain3 st 2 1 = some (2, [3], [some 3, some 2]) := by decide
+
+end depth
+end StorageModel.Properties.C15
+
+#print axioms StorageModel.Properties.C15.create_through_child_exists_in_all_ancestors
+#print axioms StorageModel.Properties.C15.level_query_returns_exactly_kept_rows
+#print axioms StorageModel.Properties.C15.chain_delete_removes_entity_at_every_level
+#print axioms StorageModel.Properties.C15.chain_delete_leaves_deep_indexes_untouched
+#print axioms StorageModel.Properties.C15.chain_delete_leaves_no_trace_partial
+#print axioms StorageModel.Properties.C15.grandchild_delete_leaves_index_entry
+#print axioms StorageModel.Properties.C15.chain_delete_fullStatement_fails
+#print axioms StorageModel.Properties.C15.chain_create_captures_old_partial
+#print axioms StorageModel.Properties.C15.grandchild_create_over_root_only_leaves_stale_entries
+#print axioms StorageModel.Properties.C15.grandchild_create_over_root_only_refused_as_own_duplicate
+#print axioms StorageModel.Properties.C15.chain_create_fullStatement_fails
+#print axioms StorageModel.Properties.C15.level_query_agrees_with_lookup_partial
+#print axioms StorageModel.Properties.C15.extended_grandchild_query_lookup_mismatch
+#print axioms StorageModel.Properties.C15.level_query_lookup_fullStatement_fails
